@@ -33,9 +33,8 @@ ASSUMPTIONS = [
     "all dimensions are selector-symbolic except puid (symbolic int, realised by the uid-in-index lookups)",
     "the alphabet of the attribute an operation changes has one key more than local + max_remotes (a free key exists "
     "when the stack is full); a foreign stranger varies only in the attribute the operation looks at",
-    "on a FAILING path the harness pins the remaining symbolic inputs to one model value before the engine realises "
-    "the counterexample; the vacuity label 'target-foreign-twin' of step/remove is waived by a concrete probe while "
-    "every such path is a replayed violation",
+    "the vacuity label 'target-foreign-twin' of step/remove is waived by a concrete probe while every such path is a "
+    "replayed violation",
 ]
 
 UIDS = [1, 2, 3, 4, 5]
@@ -45,32 +44,15 @@ ATTR = {"move": "uid", "rename": "name", "reha": "ha"}
 METHOD = {"move": "moveRemote", "rename": "renameRemote", "reha": "rehaRemote"}
 
 
-def pin(sym):
-    """failing path only: fix every still-symbolic input to one feasible value (constraint, not branch); see C39"""
-    if not getattr(sym, "symbolic", False):
-        return
-    import z3
-    from crosshair.statespace import context_statespace
-    from crosshair.tracers import NoTracing
-    with NoTracing():
-        space = context_statespace()
-        if space.solver.check() != z3.sat:
-            return
-        model = space.solver.model()
-        for v in list(sym.vals.values()):
-            var = getattr(v, "var", None)
-            if var is not None:
-                space.add(var == model.evaluate(var, model_completion=True))
-
-
 def fail(sym, key, detail=""):
-    pin(sym)
-    sym.fail(key, detail() if callable(detail) else detail)
+    """detail may be a callable: the engine evaluates it under concrete replay only (formatting symbolic values
+    would realise them), and reads the counterexample from a solver model without enumerating value domains"""
+    sym.fail(key, detail)
 
 
 def chk(sym, c, key, detail=""):
     if not c:
-        fail(sym, key, detail)
+        sym.fail(key, detail)
 
 
 def run(fn):
